@@ -35,7 +35,7 @@ def world():
     w['year_start'] = z3.Function('year_start', INT, INT)
     w['calendar'] = calendar_axioms(w['month_start'], w['year_start'])
     w.update(
-        us=lambda x: zint(x.us),
+        us=lambda x: zint(x.us), micros=lambda x: zint(x.us),
         # the clock, by components (NOW == DAY*now_day + SEC*now_sec + now_usec):
         NOW_S=DAY * z3.Int('now_day') + SEC * z3.Int('now_sec'),      # floor to the second
         NOW_DAY0=DAY * z3.Int('now_day'),                              # midnight
@@ -97,9 +97,9 @@ MODIFIES = ['self.timeShiftBufferDepth', 'self.availabilityStartTime', 'self.ela
 def live_params(start):
     req = [('now_epoch', 'NOW >= 86400000000'), ('now_components', 'now_norm'),           # any instant after 1970-01-02 (the code subtracts a day at most)
            ('calendar', 'calendar'),
-           ('ref', 'ref_ts >= 1 and ref_sd >= 1 and 4 * ref_sd > ref_ts'),   # default update period round(2*sd/ts) >= 1
-           ('depth_nonneg', 'True if depth_none else opt_depth >= 0'),
-           ('leeway_nonneg', 'True if leeway_none else opt_leeway >= 0')]
+           ('ref', 'ref_ts >= 1 and ref_sd >= 1'),
+           # the state DashTiming.__init__ hands over (obliged at that call site)
+           ('init_state', 'us(self.publishTime) == NOW_S and us(self.leeway) == 0 and us(self.now) == NOW and us(now) == NOW')]
     if start == 'explicit':
         req += [('ast_le_now', 'opt_ast <= NOW'), ('ast_whole_second', 'opt_ast % 1000000 == 0')]
     AST = 'us(self.availabilityStartTime)'
@@ -130,12 +130,69 @@ def live_params(start):
         props=['C08', 'C09', 'C16'],
         env=lambda w: {'self': self_obj(w), 'now': w['now_dt'], 'options': options_obj(w, start)},
         requires=req, modifies=MODIFIES, ensures=ens,
+        mod_types={'self.timeShiftBufferDepth': 'opt_int', 'self.availabilityStartTime': 'dt', 'self.elapsedTime': 'td',
+                   'self.minimumUpdatePeriod': 'opt_int', 'self.firstAvailableTime': 'td', 'self.leeway': 'td',
+                   'self.publishTime': 'dt'},
         canaries=['optval(self.timeShiftBufferDepth) == 60'],
         witness_terms=wt,
     )
 
 
 LIVE = [live_params(s) for s in ('epoch', 'today', 'month', 'year', 'now', 'explicit')]
+for _c in LIVE:
+    _c.applies = (lambda v: (lambda fr: (fr['options'].f['availabilityStartTime'] == v) if v != 'explicit'
+                             else isinstance(fr['options'].f['availabilityStartTime'], DT)))(_c.variant)
+
+from contracts import dt as DT_GROUP      # noqa: E402
+
+VOD_PARAMS = Contract(
+    key=f'{TIMING}:DashTiming.calculate_vod_params', props=['C06'],
+    env=lambda w: {'self': Obj('DashTiming', {'mode': 'vod', 'now': w['now_dt'], 'stream_reference': ref_obj(w),
+                                              'publishTime': DT(z3.Int('pt0')), 'leeway': TD(z3.IntVal(0))}),
+                   'now': w['now_dt'], 'options': Obj('OptionsContainer', {'mode': 'vod'})},
+    requires=[('ref', 'ref_ts >= 1 and ref_dur >= 0')],
+    modifies=['self.availabilityStartTime', 'self.timeShiftBufferDepth', 'self.elapsedTime', 'self.firstAvailableTime',
+              'self.mediaDuration', 'self.minimumUpdatePeriod'],
+    mod_types={'self.availabilityStartTime': 'none', 'self.timeShiftBufferDepth': 'int', 'self.elapsedTime': 'td',
+               'self.firstAvailableTime': 'td', 'self.mediaDuration': 'td', 'self.minimumUpdatePeriod': 'none'},
+    ensures=[('media_duration', 'us(self.mediaDuration) == (ref_dur * 1000000) // ref_ts'),
+             # "equals the timing-reference duration to the millisecond": less than 1 us below ref_dur/ref_ts seconds
+             ('to_the_millisecond', 'us(self.mediaDuration) * ref_ts <= ref_dur * 1000000 and '
+                                    'ref_dur * 1000000 < (us(self.mediaDuration) + 1) * ref_ts'),
+             ('static', 'self.availabilityStartTime is None and self.minimumUpdatePeriod is None and '
+                        'self.timeShiftBufferDepth == 0 and us(self.elapsedTime) == 0 and us(self.firstAvailableTime) == 0')],
+    canaries=['us(self.mediaDuration) == 0'],
+    witness_terms=lambda w: (lambda ev: {'now': ev(w['now']), 'ref_dur': ev(w['ref_dur']), 'ref_ts': ev(w['ref_ts']), 'ref_sd': 1}),
+)
+
+
+def init_contract(mode, start='epoch'):
+    def env(w):
+        opts = options_obj(w, start)
+        opts.f['mode'] = mode
+        return {'self': Obj('DashTiming', {'DEFAULT_TIMESHIFT_BUFFER_DEPTH': 60}), 'now': w['now_dt'],
+                'stream_ref': ref_obj(w), 'options': opts}
+    ens = [('publish', 'us(self.publishTime) == NOW_S' if mode == 'vod' else 'True'),
+           ('fields', f"self.mode == '{mode}' and us(self.now) == NOW"),
+           ('leeway_default', 'us(self.leeway) == 0' if mode == 'vod' else 'True')]
+    if mode == 'live':
+        ens += [('live_ast_le_now', 'us(self.availabilityStartTime) <= NOW'),
+                ('live_first_available', 'us(self.firstAvailableTime) >= 0 and us(self.firstAvailableTime) <= us(self.elapsedTime)')]
+    else:
+        ens += [('vod_duration', 'us(self.mediaDuration) == (ref_dur * 1000000) // ref_ts')]
+    return Contract(
+        key=f'{TIMING}:DashTiming.__init__', variant=mode, props=['C08' if mode == 'live' else 'C06', 'C16'],
+        env=env,
+        requires=[('now_epoch', 'NOW >= 86400000000'), ('now_components', 'now_norm'), ('calendar', 'calendar'),
+                  ('ref', 'ref_ts >= 1 and ref_sd >= 1 and ref_dur >= 0')],
+        modifies=['self.mode', 'self.now', 'self.publishTime', 'self.stream_reference', 'self.leeway'] + MODIFIES +
+                 ['self.mediaDuration'],
+        ensures=ens,
+        witness_terms=wt,
+    )
+
+
+INIT = [init_contract('live'), init_contract('vod')]
 
 
 # ----------------------------------------------------------------------------- two-state lemmas over the contracts
@@ -192,7 +249,7 @@ def lemma_publish_monotone(w):
 
 
 GROUP = Group(
-    name='timing', world=world, contracts=LIVE,
+    name='timing', world=world, contracts=LIVE + [VOD_PARAMS] + INIT,
     lemmas=[Lemma(f'ast_monotone_{s}', ['C08', 'C09'], lemma_ast_monotone(s)) for s in ('today', 'month', 'year', 'now')] +
            [Lemma(f'ast_same_within_day_{s}', ['C08'], lemma_ast_same_day(s)) for s in ('epoch', 'today', 'month', 'year')] +
            [Lemma('ast_now_follows_clock', ['C08'], lemma_ast_now_follows),
@@ -209,6 +266,8 @@ GROUP = Group(
     ],
     bounded=[{'name': 'c08_calendar', 'props': ['C08'], 'cmd': ['/venv/bin/python', 'bounded/c08_calendar.py']}],
     trusted=['datetime/timedelta model of pyvc (DESIGN.md 2.2)'],
-    not_covered=['ast_from_string / option parsing (regex, from_isodatetime)', 'DashTiming.__init__ and the vod branch',
+    not_covered=['ast_from_string / option parsing (regex, from_isodatetime)',
                  'generate_manifest_context (copies fields)'],
 )
+
+GROUP.callees = [DT_GROUP.TIMECODE_TO_TIMEDELTA]
